@@ -318,6 +318,12 @@ func c12RunJob(job c12Job, id *idp.Identity) []c12Fail {
 		}); p {
 			fails = append(fails, c12Fail{"C12:panic:FetchAll", msg})
 		}
+		// the same with a single fetch slot: one bad block must not use up the fetcher's capacity
+		if p, msg := c12Guard(func() {
+			check("FetchAll-concurrency-1", entry.FetchAll(ctx, api, []cid.Cid{head}, &entry.FetchOptions{IO: io, Concurrency: 1, Timeout: 8 * time.Second}))
+		}); p {
+			fails = append(fails, c12Fail{"C12:panic:FetchAll", msg})
+		}
 		if p, msg := c12Guard(func() {
 			l, err := ipfslog.NewFromEntryHash(ctx, api, id, head, &ipfslog.LogOptions{ID: "c12", IO: io}, &ipfslog.FetchOptions{})
 			if err == nil {
